@@ -382,6 +382,9 @@ pub fn replay(args: &Args) {
         .unwrap_or_else(|e| tool_error(&format!("client: {e}")));
     let mut honest_accepted = 0u64;
     let mut query_ok = 0u64;
+    // h_common::Summary keeps a bounded list of violations: report at most 8 per class in detail so that a
+    // frequent class (the recorded empty-value finding) cannot crowd out another one; all are counted
+    let mut by_class: std::collections::BTreeMap<String, u64> = std::collections::BTreeMap::new();
     for (i, case) in cases.iter().enumerate() {
         for rep in 0..reps {
             let mut rng = StdRng::seed_from_u64(seed.wrapping_mul(0x9e37_79b9).wrapping_add((i as u64) * 131 + rep));
@@ -435,6 +438,12 @@ pub fn replay(args: &Args) {
             });
             if matches!(res, Err(_)) {
                 sum.violation(PROP, json!({"class": {"kind": "panic"}, "why": format!("get_verified_balance panicked: {detail}"), "case": case, "seed": seed, "index": i}));
+            } else if demand == 0 && reported && {
+                let n = by_class.entry(class.to_string()).or_insert(0);
+                *n += 1;
+                *n > 8
+            } {
+                // counted in `violations_by_class`
             } else if demand == 0 && reported {
                 sum.violation(PROP, json!({
                     "class": class,
@@ -457,6 +466,7 @@ pub fn replay(args: &Args) {
             }
         }
     }
+    sum.set("violations_by_class", json!(by_class));
     sum.set("honest_accepted", json!(honest_accepted));
     sum.set("queries_for_the_right_key", json!(query_ok));
     sum.write(args.opt("summary").unwrap_or_else(|| tool_error("--summary")));
